@@ -54,6 +54,11 @@ m = {
         'path': '/verif/harness',
         'serves_properties': claimed,
         'kind_free_text': 'Rust binary using proptest 1.11 as a library (TestRunner, fixed seed from VERIF_SEED, no failure persistence); one module per property with generator, oracle, classification; worker child process for abort isolation; shrunk failures are written as JSON replay files',
+    }, {
+        'name': 'verif-fuzz',
+        'path': '/verif/fuzz',
+        'serves_properties': [c for c in ['C01', 'C02', 'C04', 'C05', 'C09'] if c in claimed],
+        'kind_free_text': 'cargo-fuzz crate (libFuzzer, nightly, ASan), one binary verif_fuzz with five targets selected by VERIF_FUZZ_TARGET; the oracle is inside each target; built from /repo and driven by the opcua-verif engine as an extra part of the thorough tier (fixed -runs, seed from VERIF_SEED, crash input stored in the JSON replay file)',
     }],
     'checks': checks,
     'not_applicable': na,
